@@ -34,7 +34,31 @@ def case_strategy():
     from hypothesis import strategies as st
 
     @st.composite
+    def _dup_case(draw):
+        """a derivation in which parent and child each register one signature more than once, then one of the child's
+        (or the parent's, with linkback) duplicates is unregistered: the child's own survivor must still replace the
+        inherited methods of that signature"""
+        a = draw(st.integers(0, 1))  # int / str
+        lb = draw(st.booleans())
+        ops = [["root"]] + [["register", 0, a, 0, "leaf"]] * draw(st.integers(1, 2)) + [["register", 0, 2, 0, "leaf"]]
+        ops += [["copy", 0, lb]] + [["register", 1, a, 0, "leaf"]] * draw(st.integers(1, 3))
+        if draw(st.booleans()):
+            ops += [["copy", 1, draw(st.booleans())], ["register", 2, a, 0, "leaf"]]
+        for _ in range(draw(st.integers(2, 8))):
+            k = draw(st.sampled_from(["unregister", "unregister", "register", "call", "call"]))
+            node = draw(st.integers(0, 2))
+            if k == "unregister":
+                ops.append(["unregister", node, draw(st.integers(0, 3))])
+            elif k == "register":
+                ops.append(["register", node, a, 0, "leaf"])
+            else:
+                ops.append(["call", node, a])
+        return {"ops": ops}
+
+    @st.composite
     def _case(draw):
+        if draw(st.integers(0, 5)) == 0:
+            return draw(_dup_case())
         n = draw(st.sampled_from([6, 10, 16, 25]))
         ops = [["root"], ["register", 0, draw(st.integers(0, len(ANNS) - 1)), 0, "leaf"]]
         for _ in range(n):
@@ -135,7 +159,11 @@ def run_case(spec):
     g = GR.FnGraph(HIER, env=env)
     model = Model()
     mid = [0]
-    stats = {"grandchild": False, "two_children": False, "first_use": False, "mod_after_use": False}
+    stats = {"grandchild": False, "two_children": False, "first_use": False, "mod_after_use": False,
+             "reregistered_own_signature": False}
+    # a call_next chain also walks through replaced methods of identical signature (C07's subject; how that composes
+    # across a derivation is not documented): histories with call_next bodies keep one method per signature per node
+    has_next = any(op[0] == "register" and op[4] == "next" for op in spec["ops"])
 
     def probe(node, vi, step, why):
         if not model.effective(node):
@@ -205,8 +233,14 @@ def run_case(spec):
                 if op[4] in ("leaf", "next"):
                     m["ann"] = ANNS[op[2]]
                 key = M.sig_key(GR.as_model_method(m))
-                if any(M.sig_key(GR.as_model_method(o)) == key for o in model.own[node]):
-                    continue  # a node never re-registers a signature it already owns (C05's subject)
+                dup = any(M.sig_key(GR.as_model_method(o)) == key for o in model.own[node])
+                if dup and has_next:
+                    continue
+                if dup:
+                    # a node re-registers a signature it already owns: the newer method replaces the older one,
+                    # which comes back when the newer one is unregistered (model: own list in registration order)
+                    stats["reregistered_own_signature"] = True
+                    res.label("own-signature-reregistered")
                 mid[0] += 1
                 r = capture(g.register, node, m)
                 apply = lambda: model.own[node].append(m)  # noqa: E731
@@ -280,8 +314,7 @@ class Check:
         "of a used function; distinct by history hash."
     )
     assumptions = [
-        "identical signatures contributed by two different parents are not asserted; a node never re-registers a "
-        "signature it already owns (C05's subject)",
+        "identical signatures contributed by two different parents are not asserted",
         "paths mixing linkback and non-linkback edges: refusing and accept-and-propagate are both allowed",
     ]
 
